@@ -203,6 +203,7 @@ package apd
 //@   props C16 C05 C06
 //@   requires writable(z) && rep(x) && rep(z) && sep(z, x)
 //@   assigns z
+//@   outs z
 //@   allocates
 //@   ensures val(z) == old(val(x)) && ret == z && rep(z)
 
@@ -211,6 +212,7 @@ package apd
 //@   props C16 C17
 //@   requires writable(z)
 //@   assigns z
+//@   outs z
 //@   ensures val(z) == x && ret == z && rep(z)
 
 //@ func (*BigInt).SetUint64
@@ -218,6 +220,7 @@ package apd
 //@   props C16 C17
 //@   requires writable(z)
 //@   assigns z
+//@   outs z
 //@   ensures val(z) == x && ret == z && rep(z)
 
 //@ func (*BigInt).Abs
@@ -225,6 +228,7 @@ package apd
 //@   props C16 C05 C06
 //@   requires writable(z) && rep(x) && rep(z) && sep(z, x)
 //@   assigns z
+//@   outs z
 //@   allocates
 //@   ensures val(z) == abs(old(val(x))) && ret == z && rep(z)
 
@@ -233,6 +237,7 @@ package apd
 //@   props C16 C05 C06
 //@   requires writable(z) && rep(x) && rep(z) && sep(z, x)
 //@   assigns z
+//@   outs z
 //@   allocates
 //@   ensures val(z) == -old(val(x)) && ret == z && rep(z)
 
@@ -248,6 +253,7 @@ package apd
 //@   props C16 C05 C06
 //@   requires writable(z) && rep(x) && rep(y) && rep(z) && sep(z, x) && sep(z, y)
 //@   assigns z
+//@   outs z
 //@   allocates
 //@   ensures val(z) == old(val(x)) + old(val(y)) && ret == z && rep(z)
 
@@ -256,6 +262,7 @@ package apd
 //@   props C16 C05 C06
 //@   requires writable(z) && rep(x) && rep(y) && rep(z) && sep(z, x) && sep(z, y)
 //@   assigns z
+//@   outs z
 //@   allocates
 //@   ensures val(z) == old(val(x)) - old(val(y)) && ret == z && rep(z)
 
@@ -264,6 +271,7 @@ package apd
 //@   props C16 C05 C06
 //@   requires writable(z) && rep(x) && rep(y) && rep(z) && sep(z, x) && sep(z, y)
 //@   assigns z
+//@   outs z
 //@   allocates
 //@   ensures val(z) == old(val(x)) * old(val(y)) && ret == z && rep(z)
 
@@ -272,6 +280,7 @@ package apd
 //@   props C16 C05 C06
 //@   requires val(y) != 0 && writable(z) && rep(x) && rep(y) && rep(z) && sep(z, x) && sep(z, y)
 //@   assigns z
+//@   outs z
 //@   allocates
 //@   hint tdiv_mag(val(x), val(y))
 //@   ensures val(z) == tdiv(old(val(x)), old(val(y))) && ret == z && rep(z)
@@ -281,6 +290,7 @@ package apd
 //@   props C16 C05 C06
 //@   requires val(y) != 0 && writable(z) && rep(x) && rep(y) && rep(z) && sep(z, x) && sep(z, y)
 //@   assigns z
+//@   outs z
 //@   allocates
 //@   hint tdiv_mag(val(x), val(y))
 //@   ensures val(z) == tmod(old(val(x)), old(val(y))) && ret == z && rep(z)
@@ -290,6 +300,7 @@ package apd
 //@   props C16 C05 C06
 //@   requires val(y) != 0 && z != r && writable(z) && writable(r) && rep(x) && rep(y) && rep(z) && rep(r) && sep(z, x) && sep(z, y) && sep(r, x) && sep(r, y) && sep(z, r)
 //@   assigns z, r
+//@   outs z, r
 //@   allocates
 //@   hint tdiv_mag(val(x), val(y))
 //@   ensures val(z) == tdiv(old(val(x)), old(val(y))) && val(r) == tmod(old(val(x)), old(val(y))) && ret0 == z && ret1 == r && rep(z) && rep(r)
@@ -358,6 +369,7 @@ package apd
 //@   props C16
 //@   requires writable(z) && rep(x) && rep(z) && sep(z, x)
 //@   assigns z
+//@   outs z
 //@   allocates
 //@   ensures (old(val(x)) >= 0 ==> val(z) == div(old(val(x)), pow2(n))) && ret == z && rep(z)
 
@@ -376,6 +388,7 @@ package apd
 //@   requires writable(z) && rep(x) && rep(y) && rep(z) && (m != nil ==> rep(m) && sep(z, m)) && sep(z, x) && sep(z, y)
 //@   sample val(y) <= 5000
 //@   assigns z
+//@   outs z when ret != nil
 //@   allocates
 //@   ensures (m == nil && old(val(x)) == 10 && old(val(y)) >= 0) ==> (val(z) == pow10(old(val(y))) && ret == z)
 //@   ensures (ret == nil || ret == z) && rep(z) && (ret == nil ==> val(z) == old(val(z)) && m != nil && old(val(m)) != 0 && old(val(y)) < 0)
@@ -393,12 +406,14 @@ package apd
 
 //@ func (*Decimal).Sign
 //@   props C01 C08 C15
+//@   reads d.Form, d.Coeff, d.Negative
 //@   pure
 //@   ensures d.Form == Finite && val(d.Coeff) == 0 ==> result == 0
 //@   ensures !(d.Form == Finite && val(d.Coeff) == 0) ==> result == ite(d.Negative, -1, 1)
 
 //@ func (*Decimal).IsZero
 //@   props C01 C08
+//@   reads d.Form, d.Coeff, d.Negative
 //@   pure
 //@   ensures result <==> (d.Form == Finite && val(d.Coeff) == 0)
 
@@ -406,24 +421,28 @@ package apd
 //@   props C01 C05 C06
 //@   requires writable(d)
 //@   assigns d
+//@   outs d
 //@   ensures eqdec(d, x) && result == d
 
 //@ func (*Decimal).Set
 //@   props C01 C05 C06
 //@   requires d != x ==> writable(d)
 //@   assigns d
+//@   outs d
 //@   ensures eqdec(d, x) && result == d
 
 //@ func (*Decimal).Abs
 //@   props C01 C05 C06
 //@   requires writable(d)
 //@   assigns d
+//@   outs d
 //@   ensures d.Form == old(x.Form) && !d.Negative && d.Exponent == old(x.Exponent) && val(d.Coeff) == old(val(x.Coeff)) && result == d
 
 //@ func (*Decimal).Neg
 //@   props C01 C05 C06
 //@   requires writable(d)
 //@   assigns d
+//@   outs d
 //@   ensures d.Form == old(x.Form) && d.Exponent == old(x.Exponent) && val(d.Coeff) == old(val(x.Coeff)) && result == d
 //@   ensures d.Negative == ite(old(x.Form) == Finite && old(val(x.Coeff)) == 0, false, !old(x.Negative))
 
@@ -436,6 +455,7 @@ package apd
 //@   requires pow >= 0 && writable(res)
 //@   sample pow <= 5000
 //@   assigns res
+//@   outs res
 //@   ensures val(res) == pow10(pow)
 
 //@ func tableExp10
@@ -453,6 +473,7 @@ package apd
 
 //@ func (*Decimal).NumDigits
 //@   props C19 C01
+//@   reads d.Coeff
 //@   pure
 //@   ensures ret == nd10(abs(val(d.Coeff))) && ret >= 1
 
@@ -517,6 +538,7 @@ package apd
 //@   requires integ == nil || integ != frac
 //@   requires inv(d)
 //@   assigns integ, frac
+//@   outs integ, frac
 //@   ensures [inv] (integ != nil ==> inv(integ)) && (frac != nil ==> inv(frac))
 //@   ensures [integ] integ != nil ==> (integ.Exponent == max(old(d.Exponent), 0) && integ.Negative == old(d.Negative) && val(integ.Coeff) == ite(old(d.Exponent) > 0, old(val(d.Coeff)), div(old(val(d.Coeff)), pow10(-old(d.Exponent)))))
 //@   ensures [frac] frac != nil ==> (frac.Exponent == min(old(d.Exponent), 0) && frac.Negative == old(d.Negative) && val(frac.Coeff) == ite(old(d.Exponent) > 0, 0, mod(old(val(d.Coeff)), pow10(-old(d.Exponent)))))
@@ -646,6 +668,7 @@ package apd
 //@   requires writable(d) && val(d.Coeff) >= 0 && len(xs) <= 3
 //@   requires nd == -1 || nd == nd10(val(d.Coeff))
 //@   assigns d.Coeff, d.Exponent, d.Form
+//@   reads d.Coeff, d.Negative, d.Form
 //@   loop 1 invariant #i >= -1 && (#i < len(xs) || #i == -1) && sum == sumupto(xs, #i + 1) && nobadupto(xs, #i + 1)
 //@   loop 1 decreases len(xs) - #i
 //@   ensures [inv] (d.Form == old(d.Form) || d.Form == Infinite) && val(d.Coeff) >= 0 && (closed(res) ==> closed(ret))
@@ -690,6 +713,7 @@ package apd
 //@   reveal RoundedNS SysIff
 //@   requires writable(d) && inv(x)
 //@   assigns d
+//@   outs d
 //@   hint pow10_add(c.Precision, nd10(val(x.Coeff)) - c.Precision)
 //@   hint pow10_add(c.Precision - 1, nd10(val(x.Coeff)) - c.Precision)
 //@   hint div_lt(val(x.Coeff), pow10(nd10(val(x.Coeff)) - c.Precision), pow10(c.Precision))
@@ -748,6 +772,7 @@ package apd
 //@   nilable y
 //@   requires writable(d) && (isnan(x) || (y != nil && isnan(y))) && inv(x) && (y != nil ==> inv(y))
 //@   assigns d
+//@   outs d
 //@   ensures [invkeep] old(inv(d)) ==> inv(d)
 //@   ensures [value] d.Form == NaN && d.Negative == old(nanpick(x, y).Negative) && d.Exponent == old(nanpick(x, y).Exponent) && val(d.Coeff) == old(val(nanpick(x, y).Coeff))
 //@   ensures [flags] ret0 == flag(old(nanpick(x, y).Form) == NaNSignaling, InvalidOperation)
@@ -758,6 +783,7 @@ package apd
 //@   reveal RoundedNS SysIff
 //@   requires writable(d) && inv(x)
 //@   assigns d
+//@   outs d
 //@   ensures [inv] inv(d) && closed(ret)
 //@   ensures [rounded] wfctx(c) && old(x.Form) == Finite ==> Rounded(c, old(x.Negative), old(val(x.Coeff)), old(x.Exponent), d, ret)
 //@   ensures [fits] wfctx(c) && !hassys(ret) ==> fits(c, d)
@@ -784,6 +810,7 @@ package apd
 //@   exported
 //@   requires writable(d) && inv(x)
 //@   assigns d
+//@   outs d
 //@   ensures [invkeep] old(inv(d)) ==> inv(d)
 //@   ensures [closed] closed(ret0) && inv(d)
 //@   ensures [trap] ret1 != nil <==> trapped(c, ret0)
@@ -803,6 +830,7 @@ package apd
 //@   props C01 C02 C03 C05 C06 C07 C08 C20
 //@   requires writable(d) && inv(x) && inv(y)
 //@   assigns d
+//@   outs d when ret1 == nil
 //@   ensures [invkeep] old(inv(d)) ==> inv(d)
 //@   ensures [closed] closed(ret0)
 //@   ensures [inv] !old(bothfin(x, y) && gap(x, y)) ==> inv(d)
@@ -818,6 +846,7 @@ package apd
 //@   exported
 //@   requires writable(d) && inv(x) && inv(y)
 //@   assigns d
+//@   outs d when ret1 == nil
 //@   ensures [invkeep] old(inv(d)) ==> inv(d)
 //@   ensures [closed] closed(ret0)
 //@   ensures [inv] !old(bothfin(x, y) && gap(x, y)) ==> inv(d)
@@ -833,6 +862,7 @@ package apd
 //@   exported
 //@   requires writable(d) && inv(x) && inv(y)
 //@   assigns d
+//@   outs d when ret1 == nil
 //@   ensures [invkeep] old(inv(d)) ==> inv(d)
 //@   ensures [closed] closed(ret0)
 //@   ensures [inv] !old(bothfin(x, y) && gap(x, y)) ==> inv(d)
@@ -848,6 +878,7 @@ package apd
 //@   exported
 //@   requires writable(d) && inv(x)
 //@   assigns d
+//@   outs d
 //@   ensures [invkeep] old(inv(d)) ==> inv(d)
 //@   ensures [closed] closed(ret0) && inv(d)
 //@   ensures [trap] ret1 != nil <==> trapped(c, ret0)
@@ -860,6 +891,7 @@ package apd
 //@   exported
 //@   requires writable(d) && inv(x)
 //@   assigns d
+//@   outs d
 //@   ensures [invkeep] old(inv(d)) ==> inv(d)
 //@   ensures [closed] closed(ret0) && inv(d)
 //@   ensures [trap] ret1 != nil <==> trapped(c, ret0)
@@ -873,6 +905,7 @@ package apd
 //@   exported
 //@   requires writable(d) && inv(x) && inv(y)
 //@   assigns d
+//@   outs d
 //@   ensures [invkeep] old(inv(d)) ==> inv(d)
 //@   ensures [inv] inv(d)
 //@   ensures [closed] closed(ret0)
@@ -896,6 +929,7 @@ package apd
 //@   props C01 C02 C03 C08 C10
 //@   requires writable(d) && inv(x) && inv(y)
 //@   assigns d
+//@   outs d when ret0 && ret2 == nil
 //@   ensures [invkeep] old(inv(d)) ==> inv(d)
 //@   ensures [closed] closed(ret1)
 //@   ensures [set] ret0 <==> (old(divspecial(x, y)) || c.Precision == 0)
@@ -934,6 +968,7 @@ package apd
 //@   reveal RoundedQNS RoundedNS
 //@   requires writable(d) && inv(x) && inv(y)
 //@   assigns d
+//@   outs d when ret1 == nil
 //@   ensures [invkeep] old(inv(d)) ==> inv(d)
 //@   ensures [closed] closed(ret0)
 //@   ensures [trap] ret1 != nil <==> (trapped(c, ret0) || (!old(divspecial(x, y)) && c.Precision == 0))
@@ -979,18 +1014,21 @@ package apd
 //@   props C17 C06
 //@   requires writable(d)
 //@   assigns d.Negative, d.Coeff, d.Form
+//@   reads d
 //@   ensures d.Form == Finite && d.Negative == (x < 0) && val(d.Coeff) == abs(x)
 
 //@ func (*Decimal).SetFinite
 //@   props C17 C06
 //@   requires writable(d)
 //@   assigns d
+//@   outs d
 //@   ensures d.Form == Finite && d.Negative == (x < 0) && val(d.Coeff) == abs(x) && d.Exponent == e && ret == d
 
 //@ func (*Decimal).SetInt64
 //@   props C17 C06
 //@   requires writable(d)
 //@   assigns d
+//@   outs d
 //@   ensures d.Form == Finite && d.Negative == (x < 0) && val(d.Coeff) == abs(x) && d.Exponent == 0 && ret == d
 
 //@ func New
@@ -1017,6 +1055,7 @@ package apd
 //@   exported
 //@   requires writable(d) && inv(x) && inv(y)
 //@   assigns d
+//@   outs d when ret1 == nil
 //@   ensures [invkeep] old(inv(d)) ==> inv(d)
 //@   ensures [closed] closed(ret0)
 //@   ensures [trap] ret1 != nil <==> (trapped(c, ret0) || (!old(divspecial(x, y)) && (c.Precision == 0 || old(gap(x, y)))))
@@ -1034,6 +1073,7 @@ package apd
 //@   exported
 //@   requires writable(d) && inv(x) && inv(y)
 //@   assigns d
+//@   outs d when ret1 == nil
 //@   ensures [invkeep] old(inv(d)) ==> inv(d)
 //@   ensures [closed] closed(ret0)
 //@   ensures [trap] ret1 != nil <==> (trapped(c, ret0) || old(bothfin(x, y) && !iszero(y) && gap(x, y)))
@@ -1057,6 +1097,7 @@ package apd
 //@   props C19 C05 C06
 //@   requires writable(d) && inv(x)
 //@   assigns d
+//@   outs d
 //@   loop 1 invariant i >= 1 && i < 18446744073709551616 && nd >= 0 && nd < nd10(old(val(x.Coeff))) && i * pow10(nd) == old(val(x.Coeff))
 //@   loop 1 hint pow10_add(nd, 4)
 //@   loop 1 hint mul_lin(i, tdiv(i, 10000), 10000, pow10(nd))
@@ -1094,6 +1135,7 @@ package apd
 //@   exported
 //@   requires writable(d) && inv(x) && inv(y)
 //@   assigns d
+//@   outs d
 //@   ensures [invkeep] old(inv(d)) ==> inv(d)
 //@   ensures [nan] NaN2(x, y, d, ret0)
 //@   ensures [trap] ret1 != nil <==> trapped(c, ret0)
@@ -1150,6 +1192,7 @@ package apd
 //@   props C03
 //@   requires writable(e) && writable(d) && e.Ctx != nil && closed(e.Flags) && inv(x) && inv(y)
 //@   assigns e.Flags, e.err, d
+//@   outs d when old(edclean(e)) && e.err == nil
 //@   ensures [invkeep] (old(inv(d)) ==> inv(d)) && closed(e.Flags) && e.Ctx == old(e.Ctx)
 //@   delegates (*Context).Add(e.Ctx, d, x, y)
 //@   ensures ret == d
@@ -1164,6 +1207,7 @@ package apd
 //@   props C03
 //@   requires writable(e) && writable(d) && e.Ctx != nil && closed(e.Flags) && inv(x) && inv(y)
 //@   assigns e.Flags, e.err, d
+//@   outs d when old(edclean(e)) && e.err == nil
 //@   ensures [invkeep] (old(inv(d)) ==> inv(d)) && closed(e.Flags) && e.Ctx == old(e.Ctx)
 //@   delegates (*Context).Mul(e.Ctx, d, x, y)
 //@   ensures ret == d
@@ -1171,6 +1215,7 @@ package apd
 //@   props C03
 //@   requires writable(e) && writable(d) && e.Ctx != nil && closed(e.Flags) && inv(x) && inv(y)
 //@   assigns e.Flags, e.err, d
+//@   outs d when old(edclean(e)) && e.err == nil
 //@   ensures [invkeep] (old(inv(d)) ==> inv(d)) && closed(e.Flags) && e.Ctx == old(e.Ctx)
 //@   delegates (*Context).Quo(e.Ctx, d, x, y)
 //@   ensures ret == d
@@ -1178,6 +1223,7 @@ package apd
 //@   props C03
 //@   requires writable(e) && writable(d) && e.Ctx != nil && closed(e.Flags) && inv(x) && inv(y)
 //@   assigns e.Flags, e.err, d
+//@   outs d when old(edclean(e)) && e.err == nil
 //@   ensures [invkeep] (old(inv(d)) ==> inv(d)) && closed(e.Flags) && e.Ctx == old(e.Ctx)
 //@   delegates (*Context).QuoInteger(e.Ctx, d, x, y)
 //@   ensures ret == d
@@ -1185,6 +1231,7 @@ package apd
 //@   props C03
 //@   requires writable(e) && writable(d) && e.Ctx != nil && closed(e.Flags) && inv(x) && inv(y)
 //@   assigns e.Flags, e.err, d
+//@   outs d when old(edclean(e)) && e.err == nil
 //@   ensures [invkeep] (old(inv(d)) ==> inv(d)) && closed(e.Flags) && e.Ctx == old(e.Ctx)
 //@   delegates (*Context).Rem(e.Ctx, d, x, y)
 //@   ensures ret == d
@@ -1192,6 +1239,7 @@ package apd
 //@   props C03
 //@   requires writable(e) && writable(d) && e.Ctx != nil && closed(e.Flags) && inv(x) && inv(y)
 //@   assigns e.Flags, e.err, d
+//@   outs d when old(edclean(e)) && e.err == nil
 //@   ensures [invkeep] (old(inv(d)) ==> inv(d)) && closed(e.Flags) && e.Ctx == old(e.Ctx)
 //@   delegates (*Context).Sub(e.Ctx, d, x, y)
 //@   ensures ret == d
@@ -1199,6 +1247,7 @@ package apd
 //@   props C03
 //@   requires writable(e) && writable(d) && e.Ctx != nil && closed(e.Flags) && inv(x) && inv(y) && e.Ctx.Precision <= 1000000000
 //@   assigns e.Flags, e.err, d
+//@   outs d when old(edclean(e)) && e.err == nil
 //@   ensures [invkeep] (old(inv(d)) ==> inv(d)) && closed(e.Flags) && e.Ctx == old(e.Ctx)
 //@   delegates (*Context).Pow(e.Ctx, d, x, y)
 //@   ensures ret == d
@@ -1206,6 +1255,7 @@ package apd
 //@   props C03
 //@   requires writable(e) && writable(d) && e.Ctx != nil && closed(e.Flags) && inv(x)
 //@   assigns e.Flags, e.err, d
+//@   outs d when old(edclean(e)) && e.err == nil
 //@   ensures [invkeep] (old(inv(d)) ==> inv(d)) && closed(e.Flags) && e.Ctx == old(e.Ctx)
 //@   delegates (*Context).Abs(e.Ctx, d, x)
 //@   ensures ret == d
@@ -1213,6 +1263,7 @@ package apd
 //@   props C03
 //@   requires writable(e) && writable(d) && e.Ctx != nil && closed(e.Flags) && inv(x)
 //@   assigns e.Flags, e.err, d
+//@   outs d when old(edclean(e)) && e.err == nil
 //@   ensures [invkeep] (old(inv(d)) ==> inv(d)) && closed(e.Flags) && e.Ctx == old(e.Ctx)
 //@   delegates (*Context).Ceil(e.Ctx, d, x)
 //@   ensures ret == d
@@ -1220,6 +1271,7 @@ package apd
 //@   props C03
 //@   requires writable(e) && writable(d) && e.Ctx != nil && closed(e.Flags) && inv(x) && e.Ctx.Precision <= 2000000000
 //@   assigns e.Flags, e.err, d
+//@   outs d when old(edclean(e)) && e.err == nil
 //@   ensures [invkeep] (old(inv(d)) ==> inv(d)) && closed(e.Flags) && e.Ctx == old(e.Ctx)
 //@   delegates (*Context).Exp(e.Ctx, d, x)
 //@   ensures ret == d
@@ -1227,6 +1279,7 @@ package apd
 //@   props C03
 //@   requires writable(e) && writable(d) && e.Ctx != nil && closed(e.Flags) && inv(x)
 //@   assigns e.Flags, e.err, d
+//@   outs d when old(edclean(e)) && e.err == nil
 //@   ensures [invkeep] (old(inv(d)) ==> inv(d)) && closed(e.Flags) && e.Ctx == old(e.Ctx)
 //@   delegates (*Context).Floor(e.Ctx, d, x)
 //@   ensures ret == d
@@ -1234,6 +1287,7 @@ package apd
 //@   props C03
 //@   requires writable(e) && writable(d) && e.Ctx != nil && closed(e.Flags) && inv(x) && e.Ctx.Precision <= 1500000000
 //@   assigns e.Flags, e.err, d
+//@   outs d when old(edclean(e)) && e.err == nil
 //@   ensures [invkeep] (old(inv(d)) ==> inv(d)) && closed(e.Flags) && e.Ctx == old(e.Ctx)
 //@   delegates (*Context).Ln(e.Ctx, d, x)
 //@   ensures ret == d
@@ -1241,6 +1295,7 @@ package apd
 //@   props C03
 //@   requires writable(e) && writable(d) && e.Ctx != nil && closed(e.Flags) && inv(x) && e.Ctx.Precision <= 1000000000
 //@   assigns e.Flags, e.err, d
+//@   outs d when old(edclean(e)) && e.err == nil
 //@   ensures [invkeep] (old(inv(d)) ==> inv(d)) && closed(e.Flags) && e.Ctx == old(e.Ctx)
 //@   delegates (*Context).Log10(e.Ctx, d, x)
 //@   ensures ret == d
@@ -1248,6 +1303,7 @@ package apd
 //@   props C03
 //@   requires writable(e) && writable(d) && e.Ctx != nil && closed(e.Flags) && inv(x)
 //@   assigns e.Flags, e.err, d
+//@   outs d when old(edclean(e)) && e.err == nil
 //@   ensures [invkeep] (old(inv(d)) ==> inv(d)) && closed(e.Flags) && e.Ctx == old(e.Ctx)
 //@   delegates (*Context).Neg(e.Ctx, d, x)
 //@   ensures ret == d
@@ -1255,6 +1311,7 @@ package apd
 //@   props C03
 //@   requires writable(e) && writable(d) && e.Ctx != nil && closed(e.Flags) && inv(x)
 //@   assigns e.Flags, e.err, d
+//@   outs d when old(edclean(e)) && e.err == nil
 //@   ensures [invkeep] (old(inv(d)) ==> inv(d)) && closed(e.Flags) && e.Ctx == old(e.Ctx)
 //@   delegates (*Context).Round(e.Ctx, d, x)
 //@   ensures ret == d
@@ -1262,6 +1319,7 @@ package apd
 //@   props C03
 //@   requires writable(e) && writable(d) && e.Ctx != nil && closed(e.Flags) && inv(x) && e.Ctx.Precision <= 2000000000
 //@   assigns e.Flags, e.err, d
+//@   outs d when old(edclean(e)) && e.err == nil
 //@   ensures [invkeep] (old(inv(d)) ==> inv(d)) && closed(e.Flags) && e.Ctx == old(e.Ctx)
 //@   delegates (*Context).Sqrt(e.Ctx, d, x)
 //@   ensures ret == d
@@ -1269,6 +1327,7 @@ package apd
 //@   props C03
 //@   requires writable(e) && writable(d) && e.Ctx != nil && closed(e.Flags) && inv(x)
 //@   assigns e.Flags, e.err, d
+//@   outs d when old(edclean(e)) && e.err == nil
 //@   ensures [invkeep] (old(inv(d)) ==> inv(d)) && closed(e.Flags) && e.Ctx == old(e.Ctx)
 //@   delegates (*Context).RoundToIntegralValue(e.Ctx, d, x)
 //@   ensures ret == d
@@ -1276,6 +1335,7 @@ package apd
 //@   props C03
 //@   requires writable(e) && writable(d) && e.Ctx != nil && closed(e.Flags) && inv(x)
 //@   assigns e.Flags, e.err, d
+//@   outs d when old(edclean(e)) && e.err == nil
 //@   ensures [invkeep] (old(inv(d)) ==> inv(d)) && closed(e.Flags) && e.Ctx == old(e.Ctx)
 //@   delegates (*Context).RoundToIntegralExact(e.Ctx, d, x)
 //@   ensures ret == d
@@ -1283,6 +1343,7 @@ package apd
 //@   props C03
 //@   requires writable(e) && writable(d) && e.Ctx != nil && closed(e.Flags) && inv(v)
 //@   assigns e.Flags, e.err, d
+//@   outs d when old(edclean(e)) && e.err == nil
 //@   ensures [invkeep] (old(inv(d)) ==> inv(d)) && closed(e.Flags) && e.Ctx == old(e.Ctx)
 //@   delegates (*Context).Quantize(e.Ctx, d, v, exp)
 //@   ensures ret == d
@@ -1290,6 +1351,7 @@ package apd
 //@   props C03
 //@   requires writable(e) && writable(d) && e.Ctx != nil && closed(e.Flags) && inv(x)
 //@   assigns e.Flags, e.err, d
+//@   outs d when old(edclean(e)) && e.err == nil
 //@   ensures [invkeep] (old(inv(d)) ==> inv(d)) && closed(e.Flags) && e.Ctx == old(e.Ctx)
 //@   delegates (*Context).Reduce(e.Ctx, d, x)
 //@   ensures ret1 == d
@@ -1310,6 +1372,7 @@ package apd
 //@   trusted goes through strconv and the parser (outside the subset): assumed to write only d and to leave a well-formed value
 //@   requires writable(d)
 //@   assigns d
+//@   outs d
 //@   ensures ret0 == d && (ret1 == nil ==> inv(d))
 
 //@ func MakeErrDecimal
@@ -1324,8 +1387,8 @@ package apd
 //@   ensures ret1 != nil <==> (x > 100000 || x < -100000)
 //@   ensures ret1 == nil && x >= 0 ==> (val(ret0) == pow10(x) && ret0 != nil && (ret0 == tmp || isglobal(ret0)))
 
-//@ global decimalLn10: inv(decimalLn10.unrounded) && len(decimalLn10.vals) >= 0 && len(decimalLn10.vals) <= 64 && (forall k in 0..63: k < len(decimalLn10.vals) ==> inv(decimalLn10.vals[k]))
-//@ global decimalInvLn10: inv(decimalInvLn10.unrounded) && len(decimalInvLn10.vals) >= 0 && len(decimalInvLn10.vals) <= 64 && (forall k in 0..63: k < len(decimalInvLn10.vals) ==> inv(decimalInvLn10.vals[k]))
+//@ global decimalLn10: inv(decimalLn10.unrounded) && len(decimalLn10.vals) >= 0 && len(decimalLn10.vals) <= 64 && (forall k in 0..63: k < len(decimalLn10.vals) ==> inv(decimalLn10.vals[k]) && isglobal(decimalLn10.vals[k]))
+//@ global decimalInvLn10: inv(decimalInvLn10.unrounded) && len(decimalInvLn10.vals) >= 0 && len(decimalInvLn10.vals) <= 64 && (forall k in 0..63: k < len(decimalInvLn10.vals) ==> inv(decimalInvLn10.vals[k]) && isglobal(decimalInvLn10.vals[k]))
 //@ global decimalTwo: decimalTwo.Form == Finite && !decimalTwo.Negative && decimalTwo.Exponent == 0 && val(decimalTwo.Coeff) == 2
 //@ global decimalThree: decimalThree.Form == Finite && !decimalThree.Negative && decimalThree.Exponent == 0 && val(decimalThree.Coeff) == 3
 //@ global decimalEight: decimalEight.Form == Finite && !decimalEight.Negative && decimalEight.Exponent == 0 && val(decimalEight.Coeff) == 8
@@ -1339,13 +1402,13 @@ package apd
 
 //@ func (*constWithPrecision).get
 //@   props C04 C06 C18
-//@   requires inv(c.unrounded) && len(c.vals) <= 64 && (forall k in 0..63: k < len(c.vals) ==> inv(c.vals[k]))
+//@   requires isglobal(c) && inv(c.unrounded) && len(c.vals) <= 64 && (forall k in 0..63: k < len(c.vals) ==> inv(c.vals[k]) && isglobal(c.vals[k]))
 //@   pure
 //@   loop 1 invariant i >= 0 && i + 4 * precision <= 17179869185
 //@   loop 1 decreases precision
 //@   loop 2 invariant i >= 0 && i + 4 * precision <= 17179869185
 //@   loop 2 decreases precision
-//@   ensures ret != nil && inv(ret)
+//@   ensures ret != nil && inv(ret) && isglobal(ret)
 
 //@ func (*Context).newLoop
 //@   props C04 C06
@@ -1369,6 +1432,7 @@ package apd
 //@   props C03 C04 C06 C08
 //@   requires writable(d) && inv(x) && (factor == 2 || factor == 3)
 //@   assigns d
+//@   outs d when ret0
 //@   ensures [invkeep] old(inv(d)) ==> inv(d)
 //@   ensures [closed] closed(ret1)
 //@   ensures [trap] ret2 != nil <==> trapped(c, ret1)
@@ -1385,6 +1449,7 @@ package apd
 //@   props C03 C04 C06 C08
 //@   requires writable(d) && inv(x)
 //@   assigns d
+//@   outs d when ret0
 //@   ensures [invkeep] old(inv(d)) ==> inv(d)
 //@   ensures [closed] closed(ret1)
 //@   ensures [trap] ret2 != nil <==> trapped(c, ret1)
@@ -1401,6 +1466,7 @@ package apd
 //@   exported
 //@   requires writable(d) && inv(x) && c.Precision <= 2000000000
 //@   assigns d
+//@   outs d when ret1 == nil
 //@   ensures [invkeep] old(inv(d)) ==> inv(d)
 //@   ensures [closed] closed(ret0)
 //@   ensures [trap] trapped(c, ret0) ==> ret1 != nil
@@ -1416,6 +1482,7 @@ package apd
 //@   props C03 C04 C06
 //@   requires writable(d) && inv(x) && d != x && x.Coeff != y && d.Coeff != y
 //@   assigns d
+//@   outs d
 //@   loop 1 invariant closed(ed.Flags) && ed.Ctx == c && inv(n) && inv(d) && val(b) >= 0
 //@   loop 1 decreases val(b)
 //@   ensures [closed] closed(ret0)
@@ -1426,6 +1493,7 @@ package apd
 //@   exported
 //@   requires writable(d) && inv(x)
 //@   assigns d
+//@   outs d when ret1 == nil
 //@   ensures [invkeep] old(inv(d)) ==> inv(d)
 //@   loop 1 invariant closed(ed.Flags) && ed.Ctx == nc && nc != nil && inv(z) && inv(ax) && old(inv(d)) == inv(d)
 //@   loop 1 errexit ed
@@ -1450,6 +1518,7 @@ package apd
 //@   exported
 //@   requires writable(d) && inv(x) && c.Precision <= 2000000000
 //@   assigns d
+//@   outs d when ret1 == nil
 //@   ensures [invkeep] old(inv(d)) ==> inv(d)
 //@   loop 1 invariant closed(ed.Flags) && ed.Ctx == nc && nc != nil && writable(nc) && nc != c && inv(sum) && inv(tmp1) && inv(tmp2) && inv(r) && old(inv(d)) == inv(d)
 //@   loop 1 decreases i
@@ -1467,6 +1536,7 @@ package apd
 //@   exported
 //@   requires writable(d) && inv(x) && c.Precision <= 1500000000
 //@   assigns d
+//@   outs d when ret1 == nil
 //@   ensures [invkeep] old(inv(d)) ==> inv(d)
 //@   loop 1 invariant closed(ed.Flags) && ed.Ctx == nc && nc != nil && writable(nc) && nc != c && inv(tmp1) && inv(tmp2) && inv(tmp3) && inv(tmp4) && inv(z) && inv(resAdjust) && inv(eps) && old(inv(d)) == inv(d)
 //@   loop 1 errexit ed
@@ -1486,6 +1556,7 @@ package apd
 //@   exported
 //@   requires writable(d) && inv(x) && c.Precision <= 1000000000
 //@   assigns d
+//@   outs d when ret1 == nil
 //@   ensures [invkeep] old(inv(d)) ==> inv(d)
 //@   ensures [closed] closed(ret0)
 //@   ensures [trap] trapped(c, ret0) ==> ret1 != nil
@@ -1506,6 +1577,7 @@ package apd
 //@   props C02 C04 C06 C09 C20
 //@   requires writable(d) && inv(v)
 //@   assigns d
+//@   outs d
 //@   ensures [inv] inv(d) && closed(ret) && (d.Form == old(v.Form) || d.Form == Infinite) && d.Negative == old(v.Negative)
 //@   hint pow10_add(nd10(val(v.Coeff)), exp - v.Exponent - nd10(val(v.Coeff)))
 //@   hint div_lt(val(v.Coeff), pow10(exp - v.Exponent), 1)
@@ -1520,6 +1592,7 @@ package apd
 //@   props C02 C04 C06 C09
 //@   requires writable(d) && inv(x)
 //@   assigns d
+//@   outs d
 //@   ensures [inv] inv(d) && closed(ret) && (d.Form == old(x.Form) || d.Form == Infinite) && d.Negative == old(x.Negative)
 //@   ensures [value] ctxsane(c) && c.MaxExponent >= 0 && old(qguard(c, x, 0)) ==> hassys(ret) || (d.Form == Finite && val(d.Coeff) == old(QV(c, x, 0)) && d.Exponent == 0 && (has(ret, Inexact) <==> (0 > old(x.Exponent) && RR(old(val(x.Coeff)), -old(x.Exponent)) != 0)) && (has(ret, Inexact) ==> has(ret, Rounded)) && only(ret, Inexact | Rounded | Clamped))
 
@@ -1527,6 +1600,7 @@ package apd
 //@   props C03 C04 C06 C08 C09
 //@   requires writable(d) && inv(x)
 //@   assigns d
+//@   outs d when ret0
 //@   ensures [invkeep] old(inv(d)) ==> inv(d)
 //@   ensures [closed] closed(ret1)
 //@   ensures [trap] ret2 != nil <==> trapped(c, ret1)
@@ -1540,6 +1614,7 @@ package apd
 //@   exported
 //@   requires writable(d) && inv(x)
 //@   assigns d
+//@   outs d
 //@   ensures [invkeep] old(inv(d)) ==> inv(d)
 //@   ensures [closed] closed(ret0) && none(ret0, Inexact | Rounded)
 //@   ensures [trap] ret1 != nil <==> trapped(c, ret0)
@@ -1552,6 +1627,7 @@ package apd
 //@   exported
 //@   requires writable(d) && inv(x)
 //@   assigns d
+//@   outs d
 //@   ensures [invkeep] old(inv(d)) ==> inv(d)
 //@   ensures [closed] closed(ret0)
 //@   ensures [trap] ret1 != nil <==> trapped(c, ret0)
@@ -1564,6 +1640,7 @@ package apd
 //@   exported
 //@   requires writable(d) && inv(x)
 //@   assigns d
+//@   outs d
 //@   ensures [invkeep] old(inv(d)) ==> inv(d)
 //@   ensures [closed] closed(ret0) && none(ret0, Overflow | Underflow)
 //@   ensures [trap] ret1 != nil <==> trapped(c, ret0)
@@ -1580,6 +1657,7 @@ package apd
 //@   exported
 //@   requires writable(d) && inv(x)
 //@   assigns d
+//@   outs d
 //@   ensures [invkeep] old(inv(d)) ==> inv(d)
 //@   ensures [closed] closed(ret0)
 //@   ensures [nan] NaN1(x, d, ret0)
@@ -1593,6 +1671,7 @@ package apd
 //@   exported
 //@   requires writable(d) && inv(x)
 //@   assigns d
+//@   outs d
 //@   ensures [invkeep] old(inv(d)) ==> inv(d)
 //@   ensures [closed] closed(ret0)
 //@   ensures [nan] NaN1(x, d, ret0)
@@ -1606,6 +1685,7 @@ package apd
 //@   exported
 //@   requires writable(d) && inv(x) && inv(y) && c.Precision <= 1000000000
 //@   assigns d
+//@   outs d
 //@   ensures [invkeep] old(inv(d)) ==> inv(d)
 //@   ensures [closed] closed(ret0)
 //@   ensures [fits] wfctx(c) && ret1 == nil && !hassys(ret0) ==> fits(c, d)
@@ -1631,6 +1711,7 @@ package apd
 //@   reveal RoundedNS
 //@   requires writable(d) && inv(x)
 //@   assigns d
+//@   outs d
 //@   ensures [reduce] wfctx(c) && old(x.Form == Finite && inrange(x)) && !hassys(ret1) && d.Form == Finite ==> d.Negative == old(x.Negative) && ite(RCoef(c, old(x.Negative), old(val(x.Coeff)), old(x.Exponent)) == 0, val(d.Coeff) == 0 && d.Exponent == 0 && ret0 == 0, ret0 >= 0 && val(d.Coeff) * pow10(ret0) == RCoef(c, old(x.Negative), old(val(x.Coeff)), old(x.Exponent)) && d.Exponent == RExp(c, old(x.Negative), old(val(x.Coeff)), old(x.Exponent)) + ret0 && mod(val(d.Coeff), 10) != 0)
 //@   ensures [flags] wfctx(c) && old(x.Form == Finite && inrange(x)) && !hassys(ret1) ==> (d.Form == Finite && has(ret1, Inexact) ==> has(ret1, Rounded)) && only(ret1, Inexact | Rounded | Clamped | Subnormal | Underflow | Overflow)
 //@   ensures [invkeep] old(inv(d)) ==> inv(d)
@@ -1679,6 +1760,7 @@ package apd
 //@   props C16 C05 C06
 //@   requires writable(z) && rep(x) && rep(y) && rep(z) && sep(z, x) && sep(z, y)
 //@   assigns z
+//@   outs z
 //@   allocates
 //@   ensures val(z) == uf_and(old(val(x)), old(val(y))) && ret == z && rep(z)
 //@ func math/big.(*Int).AndNot
@@ -1690,6 +1772,7 @@ package apd
 //@   props C16 C05 C06
 //@   requires writable(z) && rep(x) && rep(y) && rep(z) && sep(z, x) && sep(z, y)
 //@   assigns z
+//@   outs z
 //@   allocates
 //@   ensures val(z) == uf_andnot(old(val(x)), old(val(y))) && ret == z && rep(z)
 //@ func math/big.(*Int).Or
@@ -1701,6 +1784,7 @@ package apd
 //@   props C16 C05 C06
 //@   requires writable(z) && rep(x) && rep(y) && rep(z) && sep(z, x) && sep(z, y)
 //@   assigns z
+//@   outs z
 //@   allocates
 //@   ensures val(z) == uf_or(old(val(x)), old(val(y))) && ret == z && rep(z)
 //@ func math/big.(*Int).Xor
@@ -1712,6 +1796,7 @@ package apd
 //@   props C16 C05 C06
 //@   requires writable(z) && rep(x) && rep(y) && rep(z) && sep(z, x) && sep(z, y)
 //@   assigns z
+//@   outs z
 //@   allocates
 //@   ensures val(z) == uf_xor(old(val(x)), old(val(y))) && ret == z && rep(z)
 //@ func math/big.(*Int).Not
@@ -1723,6 +1808,7 @@ package apd
 //@   props C16 C05 C06
 //@   requires writable(z) && rep(x) && rep(z) && sep(z, x)
 //@   assigns z
+//@   outs z
 //@   allocates
 //@   ensures val(z) == uf_not(old(val(x))) && ret == z && rep(z)
 //@ func math/big.(*Int).Lsh
@@ -1734,6 +1820,7 @@ package apd
 //@   props C16 C05 C06
 //@   requires n <= 1000000 && writable(z) && rep(x) && rep(z) && sep(z, x)
 //@   assigns z
+//@   outs z
 //@   allocates
 //@   ensures val(z) == uf_lsh(old(val(x)), n) && ret == z && rep(z)
 //@ func math/big.(*Int).Sqrt
@@ -1746,6 +1833,7 @@ package apd
 //@   props C16 C05 C06
 //@   requires val(x) >= 0 && writable(z) && rep(x) && rep(z) && sep(z, x)
 //@   assigns z
+//@   outs z
 //@   allocates
 //@   ensures val(z) == uf_sqrt(old(val(x))) && ret == z && rep(z)
 //@ func math/big.(*Int).MulRange
@@ -1758,6 +1846,7 @@ package apd
 //@   requires writable(z) && rep(z)
 //@   sample y - x <= 3000
 //@   assigns z
+//@   outs z
 //@   allocates
 //@   ensures val(z) == uf_mulrange(x, y) && ret == z && rep(z)
 //@ func math/big.(*Int).Binomial
@@ -1770,6 +1859,7 @@ package apd
 //@   requires writable(z) && rep(z)
 //@   sample n <= 3000
 //@   assigns z
+//@   outs z
 //@   allocates
 //@   ensures val(z) == uf_binomial(n, k) && ret == z && rep(z)
 //@ func math/big.(*Int).SetBit
@@ -1782,6 +1872,7 @@ package apd
 //@   props C16 C05 C06
 //@   requires i >= 0 && i <= 1000000 && (b == 0 || b == 1) && writable(z) && rep(x) && rep(z) && sep(z, x)
 //@   assigns z
+//@   outs z
 //@   allocates
 //@   ensures val(z) == uf_setbit(old(val(x)), i, b) && ret == z && rep(z)
 //@ func math/big.(*Int).TrailingZeroBits
@@ -1804,6 +1895,7 @@ package apd
 //@   props C16 C05 C06
 //@   requires val(y) != 0 && writable(z) && rep(x) && rep(y) && rep(z) && sep(z, x) && sep(z, y)
 //@   assigns z
+//@   outs z
 //@   allocates
 //@   ensures val(z) == div(old(val(x)), old(val(y))) && ret == z && rep(z)
 //@ func (*BigInt).innerOrAlias
@@ -1822,6 +1914,7 @@ package apd
 //@   props C16 C05 C06
 //@   requires val(y) != 0 && writable(z) && rep(x) && rep(y) && rep(z) && sep(z, x) && sep(z, y)
 //@   assigns z
+//@   outs z
 //@   allocates
 //@   ensures val(z) == mod(old(val(x)), old(val(y))) && ret == z && rep(z)
 //@ func math/big.(*Int).DivMod
@@ -1834,6 +1927,7 @@ package apd
 //@   props C16 C05 C06
 //@   requires val(y) != 0 && z != m && y != m && x != m && writable(z) && writable(m) && rep(x) && rep(y) && rep(z) && rep(m) && sep(z, x) && sep(z, y) && sep(m, x) && sep(m, y) && sep(z, m)
 //@   assigns z, m
+//@   outs z, m
 //@   allocates
 //@   ensures val(z) == div(old(val(x)), old(val(y))) && val(m) == mod(old(val(x)), old(val(y))) && ret0 == z && ret1 == m && rep(z) && rep(m)
 //@ func (*BigInt).innerOrNil
@@ -1862,6 +1956,7 @@ package apd
 //@   props C16 C06
 //@   requires writable(z) && rep(z) && x != nil && !negzero(x) && (isglobal(x) || allocated(x))
 //@   assigns z
+//@   outs z
 //@   allocates
 //@   ensures val(z) == old(val(x)) && ret == z && rep(z)
 //@ func math/big.(*Int).ModInverse
@@ -1874,6 +1969,7 @@ package apd
 //@   props C16 C05 C06
 //@   requires val(n) != 0 && writable(z) && rep(g) && rep(n) && rep(z) && sep(z, g) && sep(z, n)
 //@   assigns z
+//@   outs z when ret != nil
 //@   allocates
 //@   ensures (ret == nil || ret == z) && (ret == nil ==> val(z) == old(val(z))) && (ret == z ==> val(z) == uf_modinv(old(val(g)), old(val(n)))) && rep(z)
 //@ define l1 nb(p: *big.Int, q: *big.Int): bool = p == q || backing(p) == 0 || backing(p) != backing(q)
@@ -1895,5 +1991,6 @@ package apd
 //@   requires z != a && z != b && z != x && z != y && (x != nil ==> x != y && x != a && x != b) && (y != nil ==> y != a)
 //@   requires sep(z, a) && sep(z, b) && (x != nil ==> sep(x, a) && sep(x, b) && sep(x, z)) && (y != nil ==> sep(y, a) && sep(y, b) && sep(y, z) && (x != nil ==> sep(y, x)))
 //@   assigns z, x, y
+//@   outs z, x, y
 //@   allocates
 //@   ensures val(z) == uf_gcd(old(val(a)), old(val(b))) && ret == z && rep(z) && (x != nil ==> rep(x) && val(x) == uf_bezx(old(val(a)), old(val(b)))) && (y != nil ==> rep(y) && val(y) == uf_bezy(old(val(a)), old(val(b))))
